@@ -401,7 +401,16 @@ def gen_value(draw, sem, t, ctx=None, small=False, nonzero=False):
         if et["k"] == "s" and et["n"] == "char":
             return b"".join(gen_scalar(draw, "char", nonzero=nz) for _ in range(n))
         if et["k"] == "s" and et["n"] == "wchar":
-            return "".join(gen_scalar(draw, "wchar", nonzero=nz) for _ in range(n))
+            # n counts UTF-16 code units: a character outside the BMP takes two of them (a valid surrogate pair)
+            out, units = [], 0
+            while units < n:
+                if n - units >= 2 and draw(st.integers(0, 7)) == 0:
+                    out.append(draw(st.sampled_from(["\U0001F600", "\U00010000", "\U0010FFFF", "\U0002A6D6"])))
+                    units += 2
+                else:
+                    out.append(gen_scalar(draw, "wchar", nonzero=nz))
+                    units += 1
+            return "".join(out)
         return [gen_value(draw, sem, et, ctx, nonzero=nz) for _ in range(n)]
     if k == "st":
         if t["kind"] == "union":
